@@ -53,8 +53,129 @@ let cmd_val s b =
   let reg = parse_tape s in
   Printf.bprintf b "val %d wf %d" (if check_alloc f32_eqb ssa reg then 1 else 0) (if ssa_wf ssa then 1 else 0)
 
+(* ---- C04: traces, simplification, chains ---------------------------------- *)
+let buf_trace b (t : tchoice list) =
+  if trace_useful t then begin
+    Printf.bprintf b "%d" (List.length t);
+    List.iter (fun c -> Printf.bprintf b " %d" (choice_code c)) t
+  end else Printf.bprintf b "none"
+
+let buf_ssa_section b ops cc oc =
+  buf_tape b ops; Printf.bprintf b " cc %d oc %d" (int_of_nat cc) (int_of_nat oc)
+
+type c04_input = IPoint of f32 array | IBox of (f32 * f32) array
+
+(* one level: tracing evaluation on the input, outputs at the samples.
+   Returns Some trace (full list) when the tracing evaluation succeeded. *)
+let c04_level ?(jit=false) orc b tag (reg : f32 op list) nout (vars : nat list) inp samples : tchoice list option =
+  let inputs_of vals = List.map (fun v -> vals.(int_of_nat v)) vars in
+  let tr =
+    match inp with
+    | IPoint p -> let (_, tr) = run_point orc reg nout (inputs_of p) in Some tr
+    | IBox bx ->
+      let ins = List.map (fun v -> let (l, u) = bx.(int_of_nat v) in mk_interval orc l u) vars in
+      let (outs, tr) = run_interval orc reg nout ins in
+      if List.exists (fun o -> o = None) outs then (Printf.bprintf b " | i%d panic" tag; None)
+      else begin
+        if not jit then begin
+          Printf.bprintf b " | i%d" tag;
+          List.iter (function Some i -> Printf.bprintf b " %d %d" (int_of_f32 i.lo) (int_of_f32 i.hi) | None -> ()) outs
+        end;
+        Some tr
+      end in
+  Printf.bprintf b " | o%d" tag;
+  List.iter (fun sp -> let (outs, _) = run_point orc reg nout (inputs_of sp) in buf_bits b outs) samples;
+  tr
+
+(* A trace returned by the JIT is judged against the model's own for the same input:
+   point traces must be equal; an interval entry must be the model's or the more
+   conservative Both (the JIT's interval arithmetic may be wider than the interpreter's). *)
+let jit_trace_ok mode (mine : tchoice list) (given : tchoice list option) : bool =
+  match given with
+  | None -> if mode = 0 then not (trace_useful mine) else true
+  | Some g ->
+    List.length g = List.length mine &&
+    (if mode = 0 then g = mine || (not (trace_useful mine) && not (trace_useful g))
+     else List.for_all2 (fun gc mc -> gc = mc || gc = TBoth) g mine)
+
+let code_choice = function 0 -> TUnknown | 1 -> TLeft | 2 -> TRight | _ -> TBoth
+
+let c04 s b =
+  let jit = next s = 1 in
+  let n = next_nat s in
+  let m = next_nat s in
+  let arena = parse_arena s in
+  let nroots = next s in
+  let roots = times nroots (fun () -> next_nat s) in
+  let nvars = next s in
+  let mode = next s in
+  let inp =
+    if mode = 0 then IPoint (Array.of_list (times nvars (fun () -> next_f32 s)))
+    else IBox (Array.of_list (times nvars (fun () -> let l = next_f32 s in let u = next_f32 s in (l, u)))) in
+  let ns = next s in
+  let samples = times ns (fun () -> Array.of_list (times nvars (fun () -> next_f32 s))) in
+  let given = if jit then Array.of_list (times 2 (fun () ->
+      let some = next s = 1 in let k = next s in
+      let l = times k (fun () -> code_choice (next s)) in if some then Some l else None))
+    else [||] in
+  let jt_ok = ref true in
+  (* which trace drives the simplification, and what is printed as tr *)
+  let pick level (mine : tchoice list) : tchoice list =
+    if jit then begin
+      if not (jit_trace_ok mode mine given.(level)) then jt_ok := false;
+      match given.(level) with Some g -> g | None -> List.map (fun _ -> TBoth) mine
+    end else mine in
+  let c04_level = c04_level ~jit in
+  let orc = libm_oracle in
+  (fun k -> k (); if jit && not !jt_ok then Printf.bprintf b " | jt bad") @@ fun () ->
+  match flatten arena roots with
+  | Err _ -> Printf.bprintf b "build err"
+  | Ok (t, vars) ->
+    match reg_tape_new n t.t_ops with
+    | Err _ -> Printf.bprintf b "build err"
+    | Ok (rt, slots) ->
+      Printf.bprintf b "p "; buf_ssa_section b t.t_ops t.t_choices t.t_outputs;
+      Printf.bprintf b " | pr %d " (int_of_nat slots); buf_tape b rt;
+      let nout = t.t_outputs in
+      let tr0 = c04_level orc b 0 rt nout vars inp samples in
+      (match tr0 with
+       | None -> Printf.bprintf b " | tr none"
+       | Some tr0 ->
+         let tr0 = pick 0 tr0 in
+         Printf.bprintf b " | tr "; buf_trace b tr0;
+         let used0 = if trace_useful tr0 then tr0 else List.map (fun _ -> TBoth) tr0 in
+         match fsimplify m t.t_ops t.t_choices used0 with
+         | Err c -> Printf.bprintf b " | s1 %s" (if int_of_nat c = 200 then "badtrace" else "err")
+         | Ok z1 ->
+           Printf.bprintf b " | s1 "; buf_ssa_section b z1.z_ssa z1.z_choices z1.z_outputs;
+           Printf.bprintf b " | r1 %d " (int_of_nat z1.z_slots); buf_tape b z1.z_reg;
+           let tr1 = c04_level orc b 1 z1.z_reg z1.z_outputs vars inp samples in
+           (match tr1 with
+            | None -> Printf.bprintf b " | tr2 none"
+            | Some tr1 ->
+              let tr1 = pick 1 tr1 in
+              Printf.bprintf b " | tr2 "; buf_trace b tr1;
+              let used1 = if trace_useful tr1 then tr1 else List.map (fun _ -> TBoth) tr1 in
+              match fsimplify n z1.z_ssa z1.z_choices used1 with
+              | Err c -> Printf.bprintf b " | s2 %s" (if int_of_nat c = 200 then "badtrace" else "err")
+              | Ok z2 ->
+                Printf.bprintf b " | s2 "; buf_ssa_section b z2.z_ssa z2.z_choices z2.z_outputs;
+                Printf.bprintf b " | r2 %d " (int_of_nat z2.z_slots); buf_tape b z2.z_reg;
+                ignore (c04_level orc b 2 z2.z_reg z2.z_outputs vars inp samples)))
+
+(* Stage-A validator for a simplification: parent tape, trace (evaluation order), child tape *)
+let cmd_sval s b =
+  let parent = parse_tape s in
+  let k = next s in
+  let tr = times k (fun () -> code_choice (next s)) in
+  let child = parse_tape s in
+  Printf.bprintf b "sval %d wf %d" (if check_simplify f32_eqb parent tr child then 1 else 0)
+    (if ssa_wf child then 1 else 0)
+
 let dispatch cmd s b =
   match cmd with
+  | "sval" -> cmd_sval s b
+  | "c04" -> c04 s b
   | "c01" -> c01 s b
   | "val" -> cmd_val s b
   | _ -> Printf.bprintf b "unknown-command %s" cmd
